@@ -392,6 +392,9 @@ func (ds *Dataset) StoreEntitiesWithTransaction(
 				if IsEntityEqual(prevLocalJSON, jsonData, prevLocalEntity, e) {
 					isDifferentLocally = false
 				}
+				// a previous version in this batch supersedes the stored version as the one to compare with.
+				// otherwise a repeated entity is written twice whenever it differs from the stored version.
+				isDifferent = isDifferentLocally
 
 			} else {
 				isDifferentLocally = false
